@@ -91,7 +91,7 @@ def gen_stack(rng, tickers, dates, fi=False, allow_flow=True, calendar_only=Fals
     else:
         st.append(["RunOnDate"] + sorted(rng.sample(dates, min(len(dates), rng.randint(1, 4)))))
     if allow_flow and rng.random() < 0.25:
-        amt = float(rng.choice([-5000, 1000, 25000, 100000, -20000]))
+        amt = float(rng.choice([-0.01, 0.002, 0.05, 0.25, -0.03]))   # fraction of the initial capital (resolved in gen_run_spec)
         st.insert(rng.randint(0, 1), ["CapitalFlow", amt])
     # selection
     r = rng.random()
@@ -187,6 +187,10 @@ def gen_run_spec(rng, nested=None, fi=False, grid=None, crash=False, calendar_ch
                         "stack": gen_stack(rng, tickers, dates, fi=fi)}
     # late listings only where every stack trades what a tradability filter selected
     stacks = [spec["tree"]["stack"]] + [k["stack"] for k in spec["tree"]["kids"]]
+    for st in stacks:
+        for d in st:
+            if d[0] == "CapitalFlow" and abs(d[1]) < 1.0:
+                d[1] = float(int(d[1] * spec["capital"]))
     if (not wellformed) or all(stack_follows_selection(st) for st in stacks):
         for t in tickers:
             if rng.random() < 0.25:
